@@ -540,6 +540,10 @@ func scScenarios(tier string) []scScenario {
 			Threads: [][]scOp{{O("putq4", h2, "B")}, rd(h)}},
 		{Name: "cached-two-readers-lazy-q4", CacheSize: 0, Extra: 1, Init: []scOp{O("putq4", h, "A")},
 			Threads: [][]scOp{{O("cget", h, ""), O("read", 0, ""), O("close", 0, "")}, {O("cget", h, ""), O("read", 0, ""), O("close", 0, "")}}},
+		{Name: "cached-miss-vs-remove", CacheSize: 0, Extra: 1, Init: []scOp{O("putq4", h, "A")},
+			Threads: [][]scOp{{O("cget", h, ""), O("read", 0, ""), O("close", 0, "")}, {O("remove", h, "A")}}},
+		{Name: "cached-miss-vs-remove-colliding-height", CacheSize: 0, Extra: 1, Init: []scOp{O("putq4", h, "A"), O("putq4", h2, "B")},
+			Threads: [][]scOp{{O("cget", h2, ""), O("read", 0, ""), O("close", 0, "")}, {O("remove", h, "A")}}},
 		{Name: "put-vs-remove-same-block", CacheSize: 1,
 			Threads: [][]scOp{{O("putq4", h, "A")}, {O("remove", h, "A"), O("has", h, "")}}},
 		{Name: "put-remove-collide", CacheSize: 1, Init: []scOp{O("putq4", h, "A")},
